@@ -36,7 +36,7 @@ def _date(y, m, d):
         d += calendar.monthrange(y, m or 12)[1] + int(y == 1900 and m == 2)
         y, m, d = _date(y, m, d)
     elif y <= 9999:
-        max_d = calendar.monthrange(y, m)[1]
+        max_d = calendar.monthrange(y, m)[1] + int(y == 1900 and m == 2)
         if d > max_d:
             y, m, d = _date(y, m + 1, d - max_d)
     if not (1899 < y <= 9999 or (y, m, d) == (1899, 12, 31)):
@@ -46,9 +46,9 @@ def _date(y, m, d):
 
 @functools.lru_cache()
 def xdate(year, month, day):
-    if year == 1900 and (month, day) in ((2, 29), (3, 0)):
-        return 60
     d = _date(year + 1900 if year < 1900 else year, month, day)
+    if d == (1900, 2, 29):
+        return 60
     return (datetime.datetime(*d) - DATE_ZERO).days + int(d >= (1900, 3, 1))
 
 
